@@ -1,5 +1,6 @@
 import LexgenModel.Proofs.Parser
 import LexgenModel.Proofs.ParserDef
+import LexgenModel.Proofs.RunCongr
 /-!
 # C16 — Definitions are read with the documented precedence and variable scoping
 -/
@@ -25,6 +26,24 @@ theorem C16_redundant_parentheses (r : Regex) (k : Nat) (ts : List Tok) (hk : k 
 theorem C16_var_is_its_definition (b : Bindings) (n : String) (r : Regex) (fuel : Nat) (h : b.find? n = some r) :
     inlineVars b (fuel + 1) (.var n) = inlineVars b fuel r := by
   simp [inlineVars, h]
+
+/-- **Factoring through variables never changes the lexer.** Two well-formed definitions whose rule sets have the same names and, after variable
+substitution in the scope of each rule (`coreRules`, `specCtxAt`: top-level `let`s visible everywhere after their declaration, a rule set's own `let`s
+only inside it), the SAME rules and right contexts — one written with `let` variables, the other with the regexes written out — compile to lexers
+whose models return the same items on every input, for every action table, after any number of calls. -/
+theorem C16_factoring_invariance {σ τ ε : Type} (items1 items2 : LexerDef) (c1 c2 : Compiled)
+    (h1 : compileLexer items1 = .ok c1) (h2 : compileLexer items2 = .ok c2)
+    (hok1 : DefOK items1) (hok2 : DefOK items2) (hne1 : DefNE items1) (hne2 : DefNE items2)
+    (hsets : hasRuleSets items1 = hasRuleSets items2)
+    (hnames : (allRuleSets items1).map (·.1) = (allRuleSets items2).map (·.1))
+    (hrules : ∀ i (h1 : i < (allRuleSets items1).length) (h2 : i < (allRuleSets items2).length),
+      coreRules (allRuleSets items1)[i].2.1 (allRuleSets items1)[i].2.2.1 (allRuleSets items1)[i].2.2.2 =
+      coreRules (allRuleSets items2)[i].2.1 (allRuleSets items2)[i].2.2.1 (allRuleSets items2)[i].2.2.2)
+    (hctx : specCtxAt items1 = specCtxAt items2)
+    (actions : Nat → Action σ τ ε) (width : Nat → Nat) (input : Option (List Nat)) (user : σ) (chars : List Nat) (n : Nat) :
+    (runN (c1.config actions width input) n (initState user chars)).1 = (runN (c2.config actions width input) n (initState user chars)).1 ∧
+    (runN (c1.config actions width input) n (initState user chars)).2.obs = (runN (c2.config actions width input) n (initState user chars)).2.obs :=
+  run_congr_of_core_eq items1 items2 c1 c2 h1 h2 hok1 hok2 hne1 hne2 hsets hnames hrules hctx actions width input user chars n
 
 /-- Whole definitions (header, `let` bindings, rules of all four kinds with optional right contexts, rule
 sets, `type Error`): printing a definition and parsing the tokens with the model of `make_lexer_parser` /
